@@ -142,6 +142,10 @@ pub fn apply(ev: &Value) -> Vec<Value> {
     if LIFTABLE.contains(&name) && inp.get("lift").and_then(|m| m.as_str()) == Some("E") {
         set_lift_top(max_var_id(inp));
     }
+    // signed-zero replay: -0.0 IS the number 0, so the judged event (which shows 0) must get the same verdict when every
+    // zero of the vector is handed to the SDK as -0.0 (a zero interval [-0,-0], a coefficient -0, a state value -0)
+    const NEGZEROABLE: [&str; 5] = ["bound_op", "eval_bound", "eval_fn", "arith", "partial_fn"];
+    crate::num::set_negzero(NEGZEROABLE.contains(&name) && inp.get("negzero").and_then(|b| b.as_bool()) == Some(true));
     let mk = |out: Value| -> Value {
         let mut e = ev.clone();
         e["out"] = out;
